@@ -1,4 +1,8 @@
 import CM.Proofs.QuoteNoBracket
+import CM.Proofs.QuoteGFinal
+import CM.Proofs.ItemClose
+import CM.Proofs.ItemEof
+import CM.Proofs.ItemFirstLine
 import CM.Proofs.RefDefSpansMain
 import CM.Props.C01Blocks
 /-
@@ -48,5 +52,36 @@ theorem exact_statement_false : ¬ blocks_quote_sim_target := blocks_quote_sim_t
 /-- On a tab-free line the indentation does not depend on the column (why tabs are excluded by the property). -/
 theorem indent_notab (p : LP) (h : NoTab (p.line.drop p.i)) : p.indent = indentLength (p.line.drop p.i) :=
   Quote.indent_notab p h
+
+/-! ### Documents with `[` (second wave: 25 further files `QuoteRd*`, `Nest*`, `QuoteG*`) -/
+
+/-- **Block-phase C09 for block quotes, documents WITH link syntax**: the reader of `onCloseParagraph`'s definition parser is
+    simulated in lockstep between the bare paragraph and the quoted one (same byte stream, positions corresponding; a multi-line
+    title is one Text node bare and one per line quoted - `DRq` relates label, destination and title nodes by kind, normalised
+    label and concatenated text). One restriction: no line of D is a setext underline (`NoULD`, decidable by `noULB`): the
+    paragraph synthesised for an orphaned underline after definitions is where the exact statement fails. -/
+theorem blocks_quote_sim_bracket (x : PExt) (D : Bytes) (hc : Clean D) (hne : D ≠ []) (hul : NoULD D) :
+    ∃ (rq : Root) (pQ : BP),
+      drain (blocksLP x) ((quote D).length + 8) (memParser (quote D)) [] = ([rq], .err .eof, pQ) ∧
+      rq.source = quote D ∧ rq.startOffset = 0 ∧ rq.endOffset = (quote D).length ∧
+      QuoteRelated (DRq D) D (drain (blocksLP x) (D.length + 8) (memParser D) []).1 rq.block :=
+  Quote.blocks_quote_sim_bracket x D hc hne hul
+
+theorem noULD_of_check (D : Bytes) (h : noULB D = true) : NoULD D := Quote.noULD_of_check h
+
+/-! ### List items, per line (8 files `Item*`): the first line behind the marker, later lines behind the indentation, and the
+    end of input are simulated; the stream-level assembly (`blocks_item_rel_target`) is open. -/
+
+/-- A later line of D and the same line indented by the item's content offset go through the two parsers in lockstep. -/
+theorem item_line_sim : type_of% @Item.processLine_simI := @Item.processLine_simI
+
+/-- The first line of D and the same line behind a list marker of width |m| and N in 1..4 spaces. -/
+theorem item_first_line_sim : type_of% @Item.processLine_first_simI := @Item.processLine_first_simI
+
+/-- The end of input closes document > list > item around the related blocks. -/
+theorem item_eof_sim : type_of% @Item.processLine_eof_simI := @Item.processLine_eof_simI
+
+/-- The thematic-break exception of the property is needed: `* ` in front of `* *` is a thematic break. -/
+theorem item_thematic_break : type_of% @Item.item_thematic_break := @Item.item_thematic_break
 
 end CM.Props.C09
